@@ -278,6 +278,31 @@ theorem trace_order (w : World) (outer : Regs) (ops : List TOp) :
       a.outer a.frames
   exact ⟨key, by rw [key]; simp⟩
 
+/-- **apply_paths_store_table_index** (bridging lemma for the expressions transcribed from `apply_low`): on the cache-hit
+path and on the cache-miss path the new frame stores the FUNCTION-TABLE index of the applied function (never its
+runtime index). -/
+theorem apply_paths_store_table_index (ei ri : Nat) : hitIndex ei ri = ei ∧ missIndex ei ri = ei := ⟨rfl, rfl⟩
+
+/-- **apply_frame_named**.  Whatever is on the control stack, a frame opened by `apply_low` — first apply (cache miss) or
+any later apply of the same function (cache hit) — for slot `ei` of the callee program's function table is listed by
+`get_svalue_trace` as the innermost entry, under the NAME of that slot, with the callee's program and object. -/
+theorem apply_frame_named (w : World) (m : Machine) (hit : Bool) (tbl : List FunEnt) (ei : Nat) (callee : Regs)
+    (hprog : callee.prog ≠ "-") :
+    (svalueTrace w (m.applyFrame hit tbl ei callee)).getLast? =
+      some ⟨w.fnName callee.prog ei, callee.prog, callee.ob, (fileLine w callee).1, (fileLine w callee).2⟩ := by
+  have hidx : (if hit then hitIndex ei (tbl.getD ei default).runtimeIndex else missIndex ei (tbl.getD ei default).runtimeIndex) = ei := by
+    cases hit <;> simp [(apply_paths_store_table_index ei _).1, (apply_paths_store_table_index ei _).2]
+  unfold svalueTrace Machine.applyFrame Machine.push
+  simp only [hprog, if_false, hidx]
+  rw [framesOf_snoc]
+  simp [fnOf, frameFunction, frameMask]
+
+/-- non-vacuity: a second apply of `go` (slot 2, runtime index 0 — the two numberings differ) is traced as `go` -/
+example :
+    let w : World := { fns := [("m.c", ["set_oid", "f1", "go"])] }
+    let tbl : List FunEnt := [⟨"set_oid", 1⟩, ⟨"f1", 2⟩, ⟨"go", 0⟩]
+    ((svalueTrace w (({} : Machine).applyFrame true tbl 2 ⟨"m.c", "m", 9⟩)).map (·.fn)) = ["go"] := by decide
+
 /-- non-vacuity: the driver applies `go`, which calls `f1` in another program, which evaluates a function literal;
 the trace has three entries, innermost last -/
 example :
